@@ -58,6 +58,7 @@ type VC struct {
 	csHit         map[*CallSite]bool
 	indexTerms    []string
 	knownRefs     []string
+	cuts          []cutPoint
 	privRefs      []string
 	rowFacts      int
 	funcCands     map[int]*ssa.Function
@@ -67,6 +68,12 @@ type VC struct {
 	obReturn      map[*Obligation]*ssa.Return
 	paramVals     []*Val
 	entryItems    int
+}
+
+// cutPoint: obligations generated after item index `at` are proved from the entry assumptions, the items in
+// [from, at) (the callsite assertions of the cut site) and everything generated from `at` on.
+type cutPoint struct {
+	from, at int
 }
 
 type constFact struct {
